@@ -2,6 +2,8 @@ import J5V.Compile.ConvertProofs
 import J5V.Compile.AppendDecl
 import J5V.Compile.Congr
 import J5V.Compile.AppendDeclPkg
+import J5V.Compile.AppendFresh
+import J5V.Compile.ExactProofs
 /-!
 # C13 — appending declarations never changes existing wire identities
 
@@ -124,6 +126,53 @@ theorem C13_append_decl_pkg (b b' : Bundle) (name : Str) (p p' : Pkg) (l l' : Lo
   append_decl_pkg b b' name p p' l l' fuel fuel' chain chain' hf hf' hl hl' pre post path imports
     elems decl e hp hp' hagree
 
+/-- **Append a declaration with fresh names — the edit itself, package level.** Let `b'` be the
+bundle after `appendDecl` (the protocol's edit: a new top-level object / oneof / enum / service /
+topic / entity at the end of the `fi`-th file of package `pkg`), and let both versions compile up
+to the link step. If the names the new declaration exports are not yet exported by the package
+(decidable on the sources: `newExportNames`), then every file generated before is generated again
+under the same name and package, and its messages, enums and services — with all nested content,
+field numbers, enum values, methods — are a prefix of the new lists. No hypothesis on the
+resolvers: that they agree on every existing reference is *derived* from freshness (local names
+look up the same export entry; imported names the same dependency entry, and dependencies load
+identically because they never read the edited package). Any number of files, packages,
+dependency depth. -/
+theorem C13_append_decl_fresh (b b' : Bundle) (pkg : Str) (fi : Nat) (el : Elem)
+    (he : (Edit.appendDecl fi el).apply pkg b = some b')
+    (fs fs' : List FileSkel) (h : compilePkg b pkg = .ok fs) (h' : compilePkg b' pkg = .ok fs')
+    (hfresh : ∀ p path imports elems decl, b.find pkg = some p →
+      p.files[fi]? = some (.j5s path imports elems decl) →
+      ∀ n ∈ newExportNames path el, n ∉ (p.files.map sumOf).flatMap (fun s => s.exports.map (·.1))) :
+    ∀ f ∈ fs, ∃ f' ∈ fs', f.Le f' := by
+  obtain ⟨p, pre, post, path, imports, elems, decl, hf, hp, hlen, hf', hother, hl⟩ :=
+    apply_appendDecl b pkg fi el b' he
+  unfold compilePkg at h h'
+  rw [hl] at h'
+  cases hld : loadPkg b (b.pkgs.length + 1) [] pkg with
+  | err t => simp [hld] at h
+  | panic w => simp [hld] at h
+  | ok l =>
+    cases hld' : loadPkg b' (b.pkgs.length + 1) [] pkg with
+    | err t => simp [hld'] at h'
+    | panic w => simp [hld'] at h'
+    | ok l' =>
+      simp only [hld, Outcome.ok.injEq] at h
+      simp only [hld', Outcome.ok.injEq] at h'
+      subst h; subst h'
+      obtain ⟨_, _, hex, _, _⟩ := loadPkg_ok_struct b _ [] pkg p l hf hld
+      have hfr : ∀ n ∈ newExportNames path el, n ∉ l.exports.map (·.1) := by
+        intro n hn hmem
+        have hget : p.files[fi]? = some (.j5s path imports elems decl) := by
+          rw [hp, ← hlen]; simp
+        apply hfresh p path imports elems decl hf hget n hn
+        rw [hex, List.map_flatMap] at hmem
+        exact hmem
+      have := append_decl_fresh b b' pkg p _ [] pre post path imports elems decl el hp hf hf' hother
+        l l' hld hld' hfr
+      intro f hfm
+      obtain ⟨f', hf'm, hle⟩ := this f ((sortFiles_perm_self l.files).mem_iff.mp hfm)
+      exact ⟨f', (sortFiles_perm_self l'.files).mem_iff.mpr hf'm, hle⟩
+
 /-- conversion depends on the resolver only at the references it contains: the bridge between the
 per-container theorems and package-level edits -/
 theorem C13_convert_congr (res res' : Resolver) (path : Str) (imports : List Import)
@@ -175,13 +224,25 @@ def lNew : Loaded := match loadPkg (bun [newDecl]) 2 [] b!"foo.v1" with | .ok l 
 example : (loadPkg (bun []) 2 [] b!"foo.v1").isOk = true ∧
     (loadPkg (bun [newDecl]) 2 [] b!"foo.v1").isOk = true := by decide
 
+/-- the hypotheses of `C13_append_decl_fresh` on the same instance: the edit applies, both
+versions compile, and the new name `E` is not exported by the package -/
+example : ((Edit.appendDecl 0 newDecl).apply b!"foo.v1" (bun [])).isSome = true ∧
+    (compilePkg (bun []) b!"foo.v1").isOk = true ∧ (compilePkg (bun [newDecl]) b!"foo.v1").isOk = true ∧
+    newExportNames b!"foo/v1/a.j5s" newDecl = [b!"E"] ∧
+    ([fileA [], fileB].map sumOf).flatMap (fun s => s.exports.map (·.1)) = [b!"A", b!"B"] := by
+  decide
+
 example : ∀ f ∈ [fileA [], fileB], AgreeFile lOld.resolver lNew.resolver f := by
-  intro f hf im r hr
+  intro f hf
   have hrefs : srcFileRefs (fileA []) = [] ∧ srcFileRefs fileB = [([], b!"A")] := by decide
   simp only [List.mem_cons, List.mem_nil_iff, or_false] at hf
   rcases hf with rfl | rfl
-  · rw [hrefs.1] at hr; simp at hr
-  · rw [hrefs.2] at hr
+  · intro im _ r hr
+    have : r ∈ srcFileRefs (fileA []) := hr
+    rw [hrefs.1] at this; simp at this
+  · intro im _ r hr
+    have hr : r ∈ srcFileRefs fileB := hr
+    rw [hrefs.2] at hr
     simp only [List.mem_singleton] at hr
     subst hr
     have h1 : lOld.resolver.pkgName = lNew.resolver.pkgName := by decide
